@@ -240,7 +240,24 @@ def iter_order(m, n):
     """Order in which a hash container of n elements is iterated.  Default: insertion order.  In
     `fork` mode (C09) the order of the first few iterations is a symbolic choice: any rotation, and
     for n <= 3 any permutation, of the insertion order."""
-    if n < 2 or getattr(m, 'hash_mode', 'insertion') != 'fork':
+    mode = getattr(m, 'hash_mode', 'insertion')
+    if n >= 2 and mode == 'reverse':
+        return list(range(n))[::-1]        # every hash iteration of the run is reversed
+    if n >= 2 and mode == 'rotate':
+        return list(range(1, n)) + [0]
+    if n >= 2 and mode == 'alternate':
+        # the order flips between consecutive iterations (stores are rebuilt with new hash seeds during a run)
+        m.hash_flip = not getattr(m, 'hash_flip', False)
+        return list(range(n))[::-1] if m.hash_flip else list(range(n))
+    if n >= 2 and mode == 'alternate2':
+        m.hash_flip = not getattr(m, 'hash_flip', True)
+        return list(range(n))[::-1] if m.hash_flip else list(range(n))
+    if n >= 2 and mode == 'swap':
+        o = list(range(n))
+        for i in range(0, n - 1, 2):
+            o[i], o[i + 1] = o[i + 1], o[i]
+        return o
+    if n < 2 or mode != 'fork':
         return list(range(n))
     left = getattr(m, 'hash_forks_left', 0)
     if left <= 0:
@@ -343,6 +360,18 @@ def it_next(m, itv, back=False):
             if back:
                 raise NotEncodable('enumerate next_back')
             return mk_iter('enumerate', ns, state=s.state + 1), Adt('(tuple)', 0, (s.state, x))
+        if k == 'scan':
+            if back:
+                raise NotEncodable('scan next_back')
+            if s.state is None:
+                return itv, None
+            ns, x = it_next(m, s.src, back)
+            if x is None:
+                return mk_iter('scan', ns, s.f, s.state), None
+            r = val(m, call_closure(m, s.f, [Ref(s.state), x]))
+            if r.var == 0:
+                return mk_iter('scan', ns, s.f, None), None
+            return mk_iter('scan', ns, s.f, s.state), r.fields[0]
         if k == 'filter':
             cur = s.src
             while True:
